@@ -146,24 +146,37 @@ def allocation_semantic(chk, repo, rule="R18.6"):
         "D": (4, False, 2, 0x1180, 2, 0x1080, False),
         "E": (5, True, 7, 0x1100, 4, 0x1000, False),
         "F": (6, False, 0, None, 7, 0x1000, True),
+        # the sibling allocator (terminals.AerotechBase): inputs in the FMMU
+        # window (a slice of in_size bytes) plus a one-byte FPRD at the end
+        # of the sync manager; outputs in an FPWR datagram of out_size bytes
+        # of their own plus a one-byte FPWR at the end of the sync manager
+        "G": (7, "aero", 40, 0x1800, 60, 0x1400, True, 12, 20),
+        "H": (8, "aero", 30, 0x1800, 50, 0x1400, False, 8, 16),
     }
     groups = [list(p_) for p_ in itertools.permutations("ABCD")][::3] + [
         list("ABCDEF"), list("FEDCBA"), list("ABE"), list("CDF"), ["C"],
-        ["A"], list("EB")]
+        ["A"], list("EB"), list("AGC"), list("GAH"), ["G"], list("CGB")]
+    aero = repo.classes.get("ebpfcat.terminals.AerotechBase")
+    if aero is None or "allocate" not in aero.methods:
+        groups = [g for g in groups if not set(g) & set("GH")]
     LADDR = 0x40000
     bad = []
     rows = 0
     for names in groups:
         terms = {}
         for nm in names:
-            pos, fm, isz, ioff, osz, ooff, rw = specs[nm]
-            terms[nm] = Obj(et, {"use_fmmu": fm, "pdo_in_sz": isz,
-                                 "pdo_in_off": ioff, "pdo_out_sz": osz,
-                                 "pdo_out_off": ooff, "position": pos})
+            pos, fm, isz, ioff, osz, ooff, rw = specs[nm][:7]
+            terms[nm] = Obj(aero if fm == "aero" else et, {
+                "use_fmmu": fm is True, "pdo_in_sz": isz,
+                "pdo_in_off": ioff, "pdo_out_sz": osz,
+                "pdo_out_off": ooff, "position": pos})
+            if fm == "aero":
+                terms[nm].fields.update(in_size=specs[nm][7],
+                                        out_size=specs[nm][8])
         me = Obj(sg, {"terminals": {terms[nm]: specs[nm][6]
                                     for nm in names},
                       "ec": Obj(None, {"get_fmmu_addr": (
-                          "hook", lambda: LADDR)})})
+                          "hook", lambda *a_, **k_: LADDR)})})
         try:
             Evaluator(repo, sg.module, sg).call_function(alloc, [me],
                                                          cls=sg)
@@ -203,12 +216,17 @@ def allocation_semantic(chk, repo, rule="R18.6"):
                     g["used"] = True
                     return g
             return None
-        sum_in = sum(specs[n][2] for n in names if specs[n][1])
+        def win_in(n):      # bytes of the input window a terminal takes
+            sp = specs[n]
+            if sp[1] == "aero":
+                return sp[7] if sp[2] else 0
+            return sp[2] if sp[1] else 0
+        sum_in = sum(win_in(n) for n in names)
         sum_out = sum(specs[n][4] for n in names
-                      if specs[n][1] and specs[n][6])
+                      if specs[n][1] is True and specs[n][6])
         n_in = sum(1 for n in names if specs[n][1] and specs[n][2])
         n_out = sum(1 for n in names
-                    if specs[n][1] and specs[n][6] and specs[n][4])
+                    if specs[n][1] is True and specs[n][6] and specs[n][4])
         lrd = find_dg("LRD", (LADDR,), sum_in) if sum_in else None
         if sum_in and lrd is None:
             err(f"no LRD datagram of {sum_in} bytes at the group's logical "
@@ -228,7 +246,7 @@ def allocation_semantic(chk, repo, rule="R18.6"):
                 err(f"no single LWR datagram of {sum_out} bytes")
         cum_in = cum_out = 0
         for nm in names:
-            pos_, fm, isz, ioff, osz, ooff, rw = specs[nm]
+            pos_, fm, isz, ioff, osz, ooff, rw = specs[nm][:7]
             t = terms[nm]
             got = pa.get(t, {})
             gm = fmaps.get(t, {})
@@ -241,7 +259,36 @@ def allocation_semantic(chk, repo, rule="R18.6"):
                 err(f"{nm}: regions {sorted(k.name for k in got)}, expected "
                     f"{sorted(k.name for k in want_keys)}")
                 continue
-            if fm:
+            if fm == "aero":
+                in_size, out_size = specs[nm][7:9]
+                if isz:
+                    if lrd is not None and (
+                            got[IN] != lrd["start"] + cum_in
+                            or gm.get(IN) != LADDR + cum_in):
+                        err(f"{nm}: inputs at frame offset {got[IN]}, "
+                            f"logical {gm.get(IN)}; expected "
+                            f"{lrd['start'] + cum_in}, {LADDR + cum_in}")
+                    cum_in += in_size
+                    if find_dg("FPRD", (pos_, ioff + isz - 1), 1) is None:
+                        err(f"{nm}: no one-byte FPRD at the end of the "
+                            f"input sync manager")
+                if rw and osz:
+                    g = find_dg("FPWR", (pos_, ooff), out_size)
+                    g2 = find_dg("FPWR", (pos_, ooff + osz - 1), 1)
+                    if g is None or g2 is None:
+                        err(f"{nm}: FPWR datagrams of {out_size} and 1 "
+                            f"bytes not found")
+                    elif got[OUT] != g["start"]:
+                        err(f"{nm}: outputs at frame offset {got[OUT]}, "
+                            f"its FPWR data starts at {g['start']}")
+                    elif any((x["cmdpos"], x["end"], "FPWR") not in fly
+                             for x in (g, g2)):
+                        err(f"{nm}: an FPWR datagram is not recorded for "
+                            f"sterilising / re-enabling")
+                if OUT in gm:
+                    err(f"{nm}: outputs without FMMU have a logical "
+                        f"address")
+            elif fm:
                 if isz and lrd is not None:
                     if got[IN] != lrd["start"] + cum_in or gm.get(IN) != \
                             LADDR + cum_in:
